@@ -1451,8 +1451,12 @@ where
     type Err = base32::DecodeError;
 
     fn from_str(s: &str) -> Result<Self, Self::Err> {
-        base32::decode_hex(s)
-            .map(|octets| unsafe { Self::from_octets_unchecked(octets) })
+        let octets: Octs = base32::decode_hex(s)?;
+        if octets.as_ref().len() > OwnerHash::MAX_LEN {
+            // The hash has room for 255 octets only.
+            return Err(base32::DecodeError::ShortBuf);
+        }
+        Ok(unsafe { Self::from_octets_unchecked(octets) })
     }
 }
 
